@@ -625,7 +625,7 @@ def c02_r7(ctx):
 
 
 @rule("C02", "R8", "K4", "what names a segment's files is recognised by the pattern that cleans them up",
-      min_instances=1,
+      min_instances=1, also=("C03",),
       clause="Segment ids are drawn by Segment._random_id() from a constant alphabet (followed through the helper it calls to the string "
              "handed to random.choice); TOC._segment_pattern(), which clean_files() uses to find the files of segments no TOC refers "
              "to, must match '<index>_<id>.<ext>' for an id made of every character of that alphabet, with the id captured whole. "
@@ -690,3 +690,55 @@ def c02_r8(ctx):
             detail += " (%s)" % e
     ctx.ob("Segment._random_id <-> TOC._segment_pattern", ok, "every character a segment id can contain is inside the id class of the clean-up pattern",
            detail=detail + "; alphabet %r" % (alphabet,), loc=pat.loc)
+    # ... and nothing else's name: index names may contain '_' (create_in(dir, indexname="docs_archive")), so the id class must
+    # stop at the separator, or a commit to `docs` claims -- and clean_files deletes -- the live files of `docs_archive`
+    if alphabet is not None:
+        foreign = None
+        try:
+            rx = re.compile(fmt_ % "IDX")
+            for sib in ("IDX_other_" + alphabet[:6] + ".seg", "IDX_2_" + alphabet[:6] + ".trm"):
+                if rx.match(sib) is not None:
+                    foreign = sib
+        except Exception:
+            pass
+        ctx.ob("TOC._segment_pattern", foreign is None, "the clean-up pattern of an index does not match the files of an index whose name extends it",
+               detail="" if foreign is None else "pattern %r for index IDX matches %r, a segment file of the index IDX_%s" %
+               (fmt_, foreign, foreign.split("_")[1]), loc=pat.loc)
+
+
+@rule("C02", "R12", "K3", "only a segment nobody can see yet is packed into a compound file",
+      min_instances=1, also=("C03",),
+      clause="Segment.create_compound_file() copies a segment's loose files into one .seg file and DELETES the loose files.  For the "
+             "segment the writer is just finishing that is harmless: no TOC lists it yet.  Applied to a segment that a committed TOC "
+             "lists (an element of a segment list, a merge policy's result) it removes files the last committed generation still "
+             "needs, before the new TOC exists: a crash in between leaves an index that cannot be opened.  So outside the segment "
+             "classes themselves every call's receiver is the writer's own new segment (self.newsegment / self.get_segment() / a "
+             "local bound to one of them), never a loop variable or an element of a list.")
+def c02_r12(ctx):
+    prog = ctx.prog
+    n = 0
+    segbase = prog.cls("codec.base.Segment")
+    segclasses = set(c.qualname for c in prog.subclasses(segbase, strict=False))
+    for f in prog.functions.values():
+        if f.cls is not None and f.cls.qualname in segclasses:
+            continue        # delegation inside the segment classes (self._child.create_compound_file)
+        for c in norm.calls_in(f.node):
+            if norm.call_name(c) != "create_compound_file" or norm.receiver(c) is None:
+                continue
+            n += 1
+            ctx.saw(f)
+            r = norm.inline_defs(norm.receiver(c), f.node)
+            t = norm.canon(r, norm.aliases(f.node))
+            own = t in ("self.newsegment", "self.get_segment()")
+            # a loop variable / comprehension variable / subscript is an element of a segment list
+            loopvars = set()
+            for lp in ast.walk(f.node):
+                if isinstance(lp, (ast.For, ast.comprehension)):
+                    loopvars |= norm.names_in(lp.target)
+            elem = isinstance(r, ast.Subscript) or (isinstance(r, ast.Name) and r.id in loopvars)
+            ctx.ob(f, own and not elem, "create_compound_file() is applied to the writer's own unpublished segment",
+                   detail="" if own and not elem else "receiver `%s` is %s: its loose files are deleted while the committed TOC still lists them"
+                   % (norm.canon(norm.receiver(c)), "an element of a segment list" if elem else "not the new segment"),
+                   loc=ctx.nodeloc(f, c))
+    if n < 1:
+        raise AnalysisError("no call of create_compound_file left outside the segment classes")
